@@ -149,6 +149,11 @@ def make_case(rng, tier):
     return c
 
 
+def _amax(a):
+    a = np.abs(np.asarray(a))
+    return float(a.max()) if a.size else 0.0
+
+
 def check(c):
     kind, D, P = c['op'], c['D'], c['P']
     x = np.array(c['x'])
@@ -229,7 +234,7 @@ def check(c):
             else:
                 if not close(tmul(tT(q), q), const(np.eye(k), D), tol):
                     return '%s-QtQ: Q^T Q != I modulo t^D' % kind
-            if np.max(np.abs(np.tril(r, -1))) > tol * max(1, np.max(np.abs(r))):
+            if _amax(np.tril(r, -1)) > tol * max(1, _amax(r)):
                 return '%s-R-upper: R is not upper triangular at every order' % kind
             q0, r0 = (np.linalg.qr(a[0]) if kind == 'qr' else scipy.linalg.qr(a[0]))
             same = (np.array_equal(q[0], q0) and np.array_equal(r[0], r0)) if m >= n else (
@@ -244,7 +249,7 @@ def check(c):
             l_ = L.data[:, p]
             if not close(tmul(l_, tT(l_)), a, tol):
                 return 'cholesky-LLt: L L^T != A modulo t^D (max diff %s)' % maxdiff(tmul(l_, tT(l_)), a)
-            if np.max(np.abs(np.triu(l_, 1))) > tol * max(1, np.max(np.abs(l_))):
+            if _amax(np.triu(l_, 1)) > tol * max(1, _amax(l_)):
                 return 'cholesky-lower: L is not lower triangular at every order'
             if not np.array_equal(l_[0], np.linalg.cholesky(a[0])):
                 return 'cholesky-zeroth: L_0 is not numpy.linalg.cholesky(A_0)'
@@ -257,7 +262,7 @@ def check(c):
                 return 'lu-P-constant: the permutation has non-zero higher coefficients'
             if not close(tmul(w, tmul(l_, u)), a, tol):
                 return 'lu-PLU: P L U != A modulo t^D (max diff %s)' % maxdiff(tmul(w, tmul(l_, u)), a)
-            if np.max(np.abs(np.triu(l_, 1))) > tol or np.max(np.abs(np.tril(u, -1))) > tol * max(1, np.max(np.abs(u))):
+            if _amax(np.triu(l_, 1)) > tol or _amax(np.tril(u, -1)) > tol * max(1, _amax(u)):
                 return 'lu-triangular: L not lower or U not upper at every order'
             dg = np.array([np.diag(l_[d]) for d in range(D)])
             if not close(dg, const(np.ones(m), D), tol):
@@ -299,7 +304,7 @@ def check(c):
                 return 'svd-USVt: U diag(s) V^T != A modulo t^D (max diff %s)' % maxdiff(tmul(u, tmul(S, tT(v))), a)
             if not close(tmul(tT(u), u), const(np.eye(u.shape[2]), D), 1e-7) or not close(tmul(tT(v), v), const(np.eye(v.shape[2]), D), 1e-7):
                 return 'svd-orth: U or V is not orthogonal modulo t^D'
-            smax = max(float(np.max(np.abs(sv[0]))), 1e-300)
+            smax = max(float(_amax(sv[0])), 1e-300)
             if np.any(sv[0] < -1e-12 * smax) or np.any(np.diff(sv[0]) > 1e-12 * smax):      # a vanishing singular value is 0 up to rounding
                 return 'svd-order: s_0 is not non-negative and descending'
     return None
@@ -311,6 +316,8 @@ def step_equations_fail(kind, a, outs):
     D, n, m = a.shape
     if kind == 'qr' and n == m:
         q, r = outs
+        if D == 1:
+            return None                  # no step equations for the plain factorization
         Rinv = np.linalg.inv(r[0])
         PLm = np.tril(np.ones((n, n)), -1)
         for d in range(1, D):
@@ -433,6 +440,32 @@ def run(ctx):
                     f = 'exception-%s: %s' % (c['op'], type(ex).__name__ + ':' + str(ex)[:100])
                 if f:
                     ctx.report(c, 'failure', f)
+    # the plain factorization (D = 1) of rank-deficient matrices, and matrices without rows / columns at every D: the factors
+    # exist (QR of any matrix; empty factors), nothing needs to be inverted
+    for kind in ('qr_full', 'qr'):
+        for A0 in ([[1., 0.], [2., 0.], [3., 0.]], [[1., 0.], [0., 0.]], [[0., 0.], [0., 0.]], [[0., 1.], [0., 2.]], [[1., 2.], [2., 4.], [0., 0.]]):
+            for P_ in (1, 2):
+                a0 = np.array(A0)
+                c = {'op': kind, 'D': 1, 'P': P_, 'x': np.stack([a0] * P_)[None]}
+                ctx.evaluations += 1
+                ctx.count('degenerate=' + kind)
+                try:
+                    f = check(c)
+                except Exception as ex:
+                    f = 'exception-%s: %s (D = 1, rank-deficient matrix)' % (c['op'], type(ex).__name__ + ':' + str(ex)[:100])
+                if f:
+                    ctx.report(c, 'failure', f)
+    for kind, shp in (('qr_full', (0, 0)), ('qr', (0, 0)), ('svd', (3, 0)), ('svd', (0, 0)), ('cholesky', (0, 0)), ('lu', (0, 0)), ('eigh', (0, 0))):
+        for D_, P_ in ((1, 1), (2, 1), (3, 2)):
+            c = {'op': kind, 'D': D_, 'P': P_, 'x': np.zeros((D_, P_) + shp)}
+            ctx.evaluations += 1
+            ctx.count('empty=' + kind)
+            try:
+                f = check(c)
+            except Exception as ex:
+                f = 'exception-%s: %s (matrix of shape %s)' % (c['op'], type(ex).__name__ + ':' + str(ex)[:100], shp)
+            if f:
+                ctx.report(c, 'failure', f)
     for i in range(300 if ctx.tier == 'quick' else 4000):
         c = make_case(rng, ctx.tier)
         ctx.evaluations += 1
